@@ -119,13 +119,18 @@ func generate(r *simkit.Rand, prop, tier string) *simkit.Plan {
 		p.Knobs["timeout_s"] = pickInt(r, 1, 2, 5, 30)
 		p.Knobs["limit_s"] = pickInt(r, 20, 60, 120)
 	} else {
+		// no cache pressure in the fault-free arm: the cacher holds a whole answer
 		p.Knobs["hardcap"] = pickInt(r, 5, 20, 100, 5000)
-		p.Knobs["cacher_cap"] = pickInt(r, 50, 500, 100000)
+		p.Knobs["cacher_cap"] = pickInt(r, 1000, 100000)
 		p.Knobs["timeout_s"] = pickInt(r, 5, 30)
 		p.Knobs["limit_s"] = 60
 	}
 	if r.Chance(0.3) {
-		p.Knobs["cacher_bytes"] = pickInt(r, 2000, 20000, 300000)
+		if faulty {
+			p.Knobs["cacher_bytes"] = pickInt(r, 2000, 20000, 300000)
+		} else {
+			p.Knobs["cacher_bytes"] = pickInt(r, 1000000, 100000000)
+		}
 	}
 	p.Knobs["prefetch"] = pickInt(r, -1, -1, 0, 300, 3000, 30000)
 	if r.Chance(0.35) {
@@ -134,13 +139,16 @@ func generate(r *simkit.Rand, prop, tier string) *simkit.Plan {
 	}
 
 	// ---- source history ----
-	harsh := p.Knobs["hardcap"] <= 2 || p.Knobs["cacher_cap"] <= 3
+	harsh := p.Knobs["hardcap"] <= 2 || p.Knobs["cacher_cap"] <= 10 || (p.Knobs["cacher_bytes"] > 0 && p.Knobs["cacher_bytes"] <= 2000)
 	nLeaves := []int{1, 2, r.Range(3, 10), r.Range(10, 50), r.Range(50, 150), r.Range(150, 400)}[r.Weighted([]int{1, 1, 4, 6, 5, 3})]
 	if harsh && nLeaves > 60 {
 		nLeaves = r.Range(5, 60)
 	}
 	if accounts && nLeaves > 60 {
 		nLeaves = r.Range(3, 60)
+	}
+	if !faulty && syncer == 1 && p.Knobs["hardcap"] < 100 && nLeaves > 60 { // one round per second: keep the fault-free arm inside its 60 s
+		nLeaves = r.Range(5, 60)
 	}
 	profile := r.Weighted([]int{5, 4, 1})
 	if profile == 2 && nLeaves > 50 {
